@@ -383,6 +383,9 @@ def run(ctx):
     c06.append_obligations(ctx, 'C01.fresh', only=('fresh-constant', 'fresh-world'))
     ctx.replayers['C01.fresh.'] = c06.replay_history
     c06.bounded_histories(ctx, 'C01.fresh', depth=3)
+    # verdict premise of L-SOUND, under C01's own names: valid is defined exactly on completed tableaux with an argument and means "no open branch"
+    from checks import c17
+    ctx.restate(c17.verdict_obligations, 'C17.verdict.', 'C01.verdict.')
     bounded_soundness(ctx)
     from checks import c04
     ctx.replayers['C01.rule.'] = lambda r: c04.replay(dict(obligation=r.name, counterexample=r.cex, meta=r.meta))
